@@ -287,7 +287,7 @@ func checkC12(w *World, r *Report) {
 			for _, e := range p.Effects {
 				if e.Kind == "call" && strings.HasPrefix(e.Target, "os.") {
 					n++
-					if e.Target == "os.RemoveAll" && e.Val == "path.Join([recv.path,arg0])" {
+					if e.Target == "os.RemoveAll" && (e.Val == "path.Join([recv.path,arg0])" || len(callCommonOf(e.In).Args) == 1 && w.APThrough(callCommonOf(e.In).Args[0]) == "path.Join([recv.path,arg0])") {
 						okF = true
 					}
 				}
